@@ -27,6 +27,9 @@ SCAFFOLD = [('S', {'A1': 1.5, 'B1': 1, 'C1': '=ROUND(A1,B1)', 'D1': '=ROUNDUP(A1
                    'F1': '=A1%', 'G1': '=ROUND(A1%,B1)',
                    # digit count omitted (= 0), and percents inside a chain of + and -
                    'H1': '=ROUNDUP(A1)', 'I1': '=ROUNDDOWN(A1)', 'J1': '=ROUNDUP(A1,)', 'K1': '=ROUNDDOWN(A1,)',
+                   # the same calls with arguments that are expressions, bracketed, or read through a formula cell
+                   'Q1': '=A1', 'R1': '=ROUND(A1+0,B1+0)', 'S1': '=ROUNDUP((A1),(B1))', 'T1': '=ROUNDDOWN(Q1,B1*1)',
+                   'U1': '=ROUND(A1,B1)+0', 'V1': '=-ROUNDUP(-A1,B1)', 'W1': '=IF(TRUE,ROUNDDOWN(A1,B1),0)',
                    'L1': '=A1%+0', 'M1': '=A1%-0', 'N1': '=0+A1%', 'O1': '=A1%+A1%', 'P1': '=A1%*1'})]
 FADDR = {'ROUND': 'C1', 'ROUNDUP': 'D1', 'ROUNDDOWN': 'E1'}
 
@@ -171,6 +174,10 @@ def run_ov(cases, stats):
     for i, c in enumerate(cases):
         outs = S.run(cls, [('A1', num(c['x'])), ('B1', c['n'])], ['C1', 'D1', 'E1'], stats)
         judge_round(c, dict(zip(FUNCS, outs)), 'ov', stats, i, vio)
+        if c['n'] in (-1, 0, 2):
+            o = S.run(cls, [('A1', num(c['x'])), ('B1', c['n'])], ['R1', 'S1', 'T1', 'U1', 'V1', 'W1'], stats)
+            judge_round(c, {'ROUND': o[0], 'ROUNDUP': o[1], 'ROUNDDOWN': o[2]}, 'ov-expression-arguments', stats, i, vio)
+            judge_round(c, {'ROUND': o[3], 'ROUNDUP': o[4], 'ROUNDDOWN': o[5]}, 'ov-inside-expression', stats, i, vio)
         if c['n'] == 0:
             # the digit count left out means 0
             o = S.run(cls, [('A1', num(c['x']))], ['H1', 'I1', 'J1', 'K1'], stats)
